@@ -113,6 +113,14 @@ def run(ctx):
                 c2 = c.from_actions()
                 if H.snap(c2) != before:
                     fail('from_actions() reproduces ' + before + ' (second replay)', H.snap(c2), 'second log replay differs')
+            if i % 4 == 1:
+                # the log handed over explicitly, in the forms a caller has it in: a tuple, a one-shot iterator, a generator (a lazy reader)
+                for form, mk in (('tuple', lambda a: tuple(a)), ('iterator', lambda a: iter(list(a))), ('generator', lambda a: (x for x in list(a)))):
+                    c4 = c.from_actions(mk(c.actions))
+                    stats['replays_from_other_iterables'] = stats.get('replays_from_other_iterables', 0) + 1
+                    if H.snap(c4) != before:
+                        fail('from_actions(the log as a %s) reproduces %s' % (form, before), H.snap(c4), 'log replay differs when the log is handed over as a ' + form)
+                        break
         except Exception as e:
             fail('from_actions() reproduces ' + H.snap(c), '%s: %s' % (type(e).__name__, e), 'log replay raised')
         # 2. card export / import
